@@ -3647,7 +3647,17 @@ theorem strip_resultCoerce (k : ScalarKind) (g : GoVal) (j : Json) (h : Spec.res
   | float => cases g <;> simp [Spec.resultCoerce] at h <;> subst h <;> rfl
   | string => cases g <;> simp [Spec.resultCoerce] at h <;> subst h <;> rfl
   | boolean => cases g <;> simp [Spec.resultCoerce] at h <;> subst h <;> rfl
-  | id => cases g <;> simp [Spec.resultCoerce] at h <;> subst h <;> rfl
+  | id =>
+    cases g with
+    | int ik z =>
+      simp only [Spec.resultCoerce] at h
+      split at h
+      · simp only [Option.some.injEq] at h; subst h; rfl
+      · simp at h
+    | flt fk m e => simp [Spec.resultCoerce] at h
+    | str s => simp [Spec.resultCoerce] at h; subst h; rfl
+    | bool b => simp [Spec.resultCoerce] at h
+    | wrong => simp [Spec.resultCoerce] at h
 
 theorem strip_enumCoerce (values : List (String × GoVal)) (g : GoVal) (j : Json) (h : Spec.enumCoerce values g = some j) :
     j.strip = j := by
